@@ -132,3 +132,4 @@ func verifSymbolic() bool           { return false }
 func verifItoa(n int) string        { return strconv.Itoa(n) }
 func verifGlobalsUnchanged() bool   { return true }
 func verifHasPrefix(s, prefix string) bool { return len(s) >= len(prefix) && s[:len(prefix)] == prefix }
+func verifCutErrors(on bool) {}
